@@ -212,6 +212,11 @@ class StringLexer:
                     break
                 # Start match?
                 elif trim_pos[0] == 0:
+                    # Emit any content carried over from a previous mid-match
+                    # first, so that elements stay in source order.
+                    if content_buff:
+                        elem_buff.append(LexedElement(content_buff, self))
+                        content_buff = ""
                     elem_buff.append(
                         LexedElement(
                             str_buff[: trim_pos[1]],
